@@ -56,10 +56,26 @@ def register(S):
             return fn, []
         return None
 
+    def call_external(ip, st, path, cargs):
+        """apply a function item of another crate (e.g. `f64::to_radians` passed to map) through its transfer function"""
+        from .summaries import CallCtx
+        cell = st.new_heap(None)
+        callee = {"path": path, "resolved": path, "full": path, "targs": [], "closure_defs": [], "trait": None, "self_ty": None}
+        call = {"callee": callee, "args": [], "dest": {"local": 0, "proj": [{"synthetic": True}]}, "target": "stay", "span": None}
+        s2 = st.copy()
+        r = ip.summaries.dispatch(ip, s2, s2.top(), callee, list(cargs), cell, "stay", call, None)
+        if r is NotImplemented:
+            raise Inconclusive("iterator adaptor: no transfer function for the function item %s" % path)
+        outs = [s2] if r is None else r
+        return [(o, o.heap.get(cell[1]) if o.status == "run" else DEAD) for o in outs]
+
     def call_sync(ip, st, clos, cargs):
         """-> [(state, return value or DEAD)]"""
         r = resolve_closure(ip, st, clos)
         if r is None:
+            cv = ip.read_loc(st, clos.loc) if isinstance(clos, RefVal) else clos
+            if isinstance(cv, Opaque) and cv.kind == "fnptr" and cv.get("path"):
+                return call_external(ip, st, cv.get("path"), cargs)
             raise Inconclusive("iterator adaptor: callback is not a workspace closure / function")
         fn, pre = r
         out = []
@@ -157,6 +173,30 @@ def register(S):
         if isinstance(v, ArrayVal) and v.elems is not None:
             return ctx.ret(Opaque.make("vec_iter", elems=tuple(v.elems), summary=None, pos=0))
         return NotImplemented
+
+    @S.pat(r"^core::array::<impl \[T; N\]>::map$")
+    @soft
+    def array_map(ctx):
+        arr = ctx.args[0]
+        if not (isinstance(arr, ArrayVal) and arr.elems is not None):
+            return NotImplemented
+        ip = ctx.ip
+        work = [(ctx.st.copy(), ())]
+        for e in arr.elems:
+            nxt = []
+            for s, acc in work:
+                for s2, rv in call_sync(ip, s, ctx.args[1], [e]):
+                    if rv is DEAD:
+                        return NotImplemented
+                    nxt.append((s2, acc + (rv,)))
+            work = nxt
+            if len(work) > 64:
+                return NotImplemented
+        outs = []
+        for s, acc in work:
+            ip.finish_call(s, ctx.dest, ctx.target, ArrayVal(list(acc), len(acc)))
+            outs.append(s)
+        return outs
 
     def elem_ref(base, i):
         return RefVal(base.loc[:-1] + (base.loc[-1] + (("i", i),),), False)
